@@ -107,6 +107,16 @@ add("C12",
     "full-dimensional chromatic gamut, neutral point strictly inside. The barycentric map's affinity (C16) is what reduces the sqrt-valued computation to the rational formula.",
     "Coq proof over Q (scaling algebra) + cone certificate checkers run by vm_compute on real outputs", "DESIGN.md §5 C12")
 
+add("C13",
+    "(F) a sample built from non-negative weights summing to 1 on a simplex whose vertices are rows of the estimator's point cloud (images of box corners) is reproducible "
+    "by in-bound intensities (uses the zonotope theorem of C03); it is a convex combination of its simplex; L1-variant totals. Tie: the hook exposes the simplices, "
+    "volumes, chosen indices and barycentric weights of every call; the Coq VM checks count = n, weights valid, every simplex vertex is a row of the cloud, volumes = "
+    "|det|/d!, and every returned sample = the exact weighted combination; L1 variant: totals on every sample and chromatic-gamut certificates on a subsample. "
+    "Uniformity and same-seed determinism are NOT proved: tested only (chi-square on simplex occupancy, run-twice equality).",
+    TRUST + "qhull, numpy Generator, scipy QMC opaque. No measure theory for polytopes is available in the installed libraries, so the distributional clause is labelled (T). "
+    "Known finding D15 (L1-variant samples outside the gamut) is reported as KNOWN-FINDING.",
+    "Coq proof (convexity + zonotope theorem) + exact re-computation of every sample from hooked draws by vm_compute; statistics only as supporting test", "DESIGN.md §5 C13")
+
 NOT_APPLICABLE = []
 ALL = ["C%02d" % i for i in range(1, 21)]
 
